@@ -162,3 +162,17 @@ func leakedInGoSend(g gor) bool {
 	lines := strings.Split(g.stack, "\n")
 	return len(lines) > 1 && strings.HasPrefix(lines[1], "github.com/ccbrown/api-fu.Go.func1(")
 }
+
+// waitingBehindAbandoned reports whether g is a chain/join goroutine of pagination.go parked in the
+// receive from a promise (api.go: `result := <-p`), i.e. waiting behind a task that never delivers.
+func waitingBehindAbandoned(g gor) bool {
+	if !strings.HasPrefix(g.state, "chan receive") {
+		return false
+	}
+	lines := strings.Split(g.stack, "\n")
+	if len(lines) < 4 {
+		return false
+	}
+	top := strings.HasPrefix(lines[1], "github.com/ccbrown/api-fu.chain.func1(") || strings.HasPrefix(lines[1], "github.com/ccbrown/api-fu.join.func1(")
+	return top && strings.HasPrefix(lines[3], "github.com/ccbrown/api-fu.Go.func1(")
+}
